@@ -1,0 +1,86 @@
+//go:build verif
+
+package block
+
+import (
+	"context"
+
+	"github.com/evstack/ev-node/types"
+)
+
+// Verification hooks (build tag "verif"): thin exports of unexported entry points and state of
+// the block Manager. Nothing here changes behaviour; no existing line is edited.
+
+// VerifPublishBlock runs one block production step (publishBlockInternal).
+func (m *Manager) VerifPublishBlock(ctx context.Context) error { return m.publishBlockInternal(ctx) }
+
+// VerifSetPublishBlock replaces the function the aggregation loops call to produce a block.
+func (m *Manager) VerifSetPublishBlock(f func(ctx context.Context) error) { m.publishBlock = f }
+
+func (m *Manager) VerifHeaderInCh() chan NewHeaderEvent { return m.headerInCh }
+func (m *Manager) VerifDataInCh() chan NewDataEvent     { return m.dataInCh }
+func (m *Manager) VerifHeaderStoreCh() chan struct{}    { return m.headerStoreCh }
+func (m *Manager) VerifDataStoreCh() chan struct{}      { return m.dataStoreCh }
+func (m *Manager) VerifRetrieveCh() chan struct{}       { return m.retrieveCh }
+func (m *Manager) VerifDAIncluderCh() chan struct{}     { return m.daIncluderCh }
+func (m *Manager) VerifTxNotifyCh() chan struct{}       { return m.txNotifyCh }
+
+func (m *Manager) VerifDAHeight() uint64     { return m.daHeight.Load() }
+func (m *Manager) VerifSetDAHeight(h uint64) { m.daHeight.Store(h) }
+
+func (m *Manager) VerifPendingData() *PendingData { return m.pendingData }
+
+func (m *Manager) VerifNumPendingHeaders() uint64 { return m.pendingHeaders.numPendingHeaders() }
+func (m *Manager) VerifNumPendingData() uint64    { return m.pendingData.numPendingData() }
+func (m *Manager) VerifLastSubmittedHeaderHeight() uint64 {
+	return m.pendingHeaders.getLastSubmittedHeaderHeight()
+}
+func (m *Manager) VerifLastSubmittedDataHeight() uint64 {
+	return m.pendingData.getLastSubmittedDataHeight()
+}
+func (m *Manager) VerifGetPendingHeaders(ctx context.Context) ([]*types.SignedHeader, error) {
+	return m.pendingHeaders.getPendingHeaders(ctx)
+}
+func (m *Manager) VerifGetPendingData(ctx context.Context) ([]*types.Data, error) {
+	return m.pendingData.getPendingData(ctx)
+}
+func (m *Manager) VerifCreateSignedDataToSubmit(ctx context.Context) ([]*types.SignedData, error) {
+	return m.createSignedDataToSubmit(ctx)
+}
+func (m *Manager) VerifSubmitHeadersToDA(ctx context.Context, hs []*types.SignedHeader) error {
+	return m.submitHeadersToDA(ctx, hs)
+}
+func (m *Manager) VerifSubmitDataToDA(ctx context.Context, ds []*types.SignedData) error {
+	return m.submitDataToDA(ctx, ds)
+}
+func (m *Manager) VerifProcessNextDAHeaderAndData(ctx context.Context) error {
+	return m.processNextDAHeaderAndData(ctx)
+}
+func (m *Manager) VerifHandlePotentialHeader(ctx context.Context, bz []byte, daHeight uint64) bool {
+	return m.handlePotentialHeader(ctx, bz, daHeight)
+}
+func (m *Manager) VerifHandlePotentialData(ctx context.Context, bz []byte, daHeight uint64) {
+	m.handlePotentialData(ctx, bz, daHeight)
+}
+func (m *Manager) VerifTrySyncNextBlock(ctx context.Context, daHeight uint64) error {
+	return m.trySyncNextBlock(ctx, daHeight)
+}
+func (m *Manager) VerifIncrementDAIncludedHeight(ctx context.Context) error {
+	return m.incrementDAIncludedHeight(ctx)
+}
+func (m *Manager) VerifIsUsingExpectedSingleSequencer(h *types.SignedHeader) bool {
+	return m.isUsingExpectedSingleSequencer(h)
+}
+func (m *Manager) VerifIsValidSignedData(d *types.SignedData) bool { return m.isValidSignedData(d) }
+func (m *Manager) VerifTxsAvailable() bool                         { return m.txsAvailable }
+
+// VerifGetRemainingSleep exposes getRemainingSleep (aggregation.go).
+func VerifGetRemainingSleep(start int64, interval int64) int64 {
+	return int64(getRemainingSleep(timeUnixNano(start), durationNs(interval)))
+}
+
+// VerifConvertBatchDataToBytes / VerifBytesToBatchData expose the batch-cursor list codec.
+func VerifConvertBatchDataToBytes(b [][]byte) []byte   { return convertBatchDataToBytes(b) }
+func VerifBytesToBatchData(b []byte) ([][]byte, error) { return bytesToBatchData(b) }
+func VerifDataHashForEmptyTxs() []byte                 { return append([]byte{}, dataHashForEmptyTxs...) }
+func VerifMaxSubmitAttempts() int                      { return maxSubmitAttempts }
